@@ -314,3 +314,20 @@ prop("C17", "exploration",
           "thorough": {"checks": 30000, "shards": 16, "timeout": 2400}},
      ],
      ["lower bounds on gaps only"])
+
+
+prop("C01", "exploration",
+     "property-based testing (rapid): the client's cache lookup against brute-force containment over an exhaustive "
+     "small key universe per generated layout, and end-to-end routing observed by simulated regionservers",
+     "Generated prefix-related tables, layouts, holes, insertion orders and keys; every lookup is compared with "
+     "brute-force containment; on the wire every request and multi action must name the owning region at the hosting "
+     "server, return the key-derived value, and meta lookups must equal first touches.",
+     "Trusted: brute-force containment, the simulated cluster's layout model and meta comparator (written from HBase's "
+     "MetaCellComparator).",
+     [
+         {"test": "TestC01_CacheLookup", "quick": {"checks": 3000, "timeout": 200},
+          "thorough": {"checks": 40000, "shards": 16, "timeout": 1800}},
+         {"test": "TestC01_EndToEnd", "quick": {"checks": 3000, "timeout": 300},
+          "thorough": {"checks": 30000, "shards": 16, "timeout": 2400}},
+     ],
+     ["row keys shorter than MaxInt16 - len(table) - 3 bytes (longer ones are truncated by the client and rejected by HBase)"])
